@@ -43,7 +43,11 @@ def build(rnd, tier, flags):
             # insert at a statement boundary that is not inside a continuation: use canonical/comment-only layouts
             i = r.n(1, max(1, len(lines) - 2))
             if r.chance(50):
-                pair = ["#ifdef X", "#endif"] if r.chance(40) else [r.pick(CPP[:1] + CPP[3:])]
+                if r.chance(50):
+                    from vf.props import c14
+                    pair = c14.gen_directive(r)[1]          # every directive kind, incl. #error / #warning / null / markers
+                else:
+                    pair = ["#ifdef X", "#endif"] if r.chance(40) else [r.pick(CPP[:1] + CPP[3:])]
                 lines[i:i] = pair
             else:
                 lines[i:i] = ["include 'nofile_%d.inc'" % r.n(1, 3)]
